@@ -1,9 +1,12 @@
 (* Properties/C18.v — descriptive statistics equal their textbook definitions.
    Statements only; every proof is `exact` of a lemma of Proofs/Stats.v.
-   All statements are about the R instance of the model (exact arithmetic);
-   rounding is measured by the correspondence check, not proved. *)
+   The first block of statements is about the R instance of the model (exact
+   arithmetic).  The last block (names containing "float") is about the FLOAT instance that is
+   extracted and run against the code: rounding-error bounds proved through Flocq
+   (Proofs/StatsFloat.v); B2R (Prim2B x) is the real value of the primitive float x. *)
 From Coq Require Import ZArith List Reals Lia.
-From SV Require Import Base.Num Model.Stats Proofs.Stats.
+From Flocq Require Import Core BinarySingleNaN PrimFloat.
+From SV Require Import Base.Num Model.Stats Proofs.Stats Proofs.StatsFloat.
 Import ListNotations.
 Local Open Scope R_scope.
 
@@ -90,3 +93,92 @@ Print Assumptions c18_undefined.
 (* non-vacuity: the hypotheses are met by a concrete sample *)
 Example c18_nonvacuous : exists v, std_dev [1; 2; 4] false = Some v /\ (2 <= length [1; 2; 4])%nat.
 Proof. eexists; split; [apply Proofs.Stats.c18_sd_def; cbn; lia | cbn; lia]. Qed.
+
+(* ---- FLOAT instance: rounding-error bounds (Flocq; eps = 2^-53 = bpow radix2 (-53)) ---- *)
+
+(* recursive summation in binary64: with finite data and no overflowing partial sum (every prefix's
+   computed sum is finite), |computed sum - exact sum| <= ((1+eps)^n - 1) * sum |x_i|, eps = 2^-53 *)
+Theorem c18_sum_list_float_error : forall l : list PrimFloat.float,
+  (forall x, In x l -> is_finite (Prim2B x) = true) ->
+  (forall k, (k <= length l)%nat -> is_finite (Prim2B (sum_list (firstn k l))) = true) ->
+  is_finite (Prim2B (sum_list l)) = true /\
+  Rabs (B2R (Prim2B (sum_list l)) - Rsum (map (fun x => B2R (Prim2B x)) l)) <=
+    ((1 + bpow radix2 (-53)) ^ length l - 1) * Rsum (map (fun x => Rabs (B2R (Prim2B x))) l).
+Proof. exact Proofs.StatsFloat.sum_list_float_error. Qed.
+Check c18_sum_list_float_error : forall l : list PrimFloat.float,
+  (forall x, In x l -> is_finite (Prim2B x) = true) ->
+  (forall k, (k <= length l)%nat -> is_finite (Prim2B (sum_list (firstn k l))) = true) ->
+  is_finite (Prim2B (sum_list l)) = true /\
+  Rabs (B2R (Prim2B (sum_list l)) - Rsum (map (fun x => B2R (Prim2B x)) l)) <=
+    ((1 + bpow radix2 (-53)) ^ length l - 1) * Rsum (map (fun x => Rabs (B2R (Prim2B x))) l).
+Print Assumptions c18_sum_list_float_error.
+
+(* the no-overflow hypothesis follows from a bound on the data: (1+eps)^n * sum|x_i| < 2^1024 *)
+Theorem c18_sum_list_no_overflow : forall l : list PrimFloat.float,
+  (forall x, In x l -> is_finite (Prim2B x) = true) ->
+  (1 + bpow radix2 (-53)) ^ length l * Rsum (map (fun x => Rabs (B2R (Prim2B x))) l) < bpow radix2 1024 ->
+  forall k, (k <= length l)%nat -> is_finite (Prim2B (sum_list (firstn k l))) = true.
+Proof. exact Proofs.StatsFloat.sum_list_no_overflow. Qed.
+Check c18_sum_list_no_overflow : forall l : list PrimFloat.float,
+  (forall x, In x l -> is_finite (Prim2B x) = true) ->
+  (1 + bpow radix2 (-53)) ^ length l * Rsum (map (fun x => Rabs (B2R (Prim2B x))) l) < bpow radix2 1024 ->
+  forall k, (k <= length l)%nat -> is_finite (Prim2B (sum_list (firstn k l))) = true.
+Print Assumptions c18_sum_list_no_overflow.
+
+(* ... hence the same error bound under that real-number condition alone *)
+Theorem c18_sum_list_float_error_bound : forall l : list PrimFloat.float,
+  (forall x, In x l -> is_finite (Prim2B x) = true) ->
+  (1 + bpow radix2 (-53)) ^ length l * Rsum (map (fun x => Rabs (B2R (Prim2B x))) l) < bpow radix2 1024 ->
+  is_finite (Prim2B (sum_list l)) = true /\
+  Rabs (B2R (Prim2B (sum_list l)) - Rsum (map (fun x => B2R (Prim2B x)) l)) <=
+    ((1 + bpow radix2 (-53)) ^ length l - 1) * Rsum (map (fun x => Rabs (B2R (Prim2B x))) l).
+Proof. exact Proofs.StatsFloat.sum_list_float_error_bound. Qed.
+Check c18_sum_list_float_error_bound : forall l : list PrimFloat.float,
+  (forall x, In x l -> is_finite (Prim2B x) = true) ->
+  (1 + bpow radix2 (-53)) ^ length l * Rsum (map (fun x => Rabs (B2R (Prim2B x))) l) < bpow radix2 1024 ->
+  is_finite (Prim2B (sum_list l)) = true /\
+  Rabs (B2R (Prim2B (sum_list l)) - Rsum (map (fun x => B2R (Prim2B x)) l)) <=
+    ((1 + bpow radix2 (-53)) ^ length l - 1) * Rsum (map (fun x => Rabs (B2R (Prim2B x))) l).
+Print Assumptions c18_sum_list_float_error_bound.
+
+(* the count n as f64 is exact below 2^53 *)
+Theorem c18_nofnat_float_exact : forall n : nat, (Z.of_nat n < 2 ^ 53)%Z ->
+  is_finite (Prim2B (nofnat n)) = true /\ B2R (Prim2B (nofnat n)) = INR n.
+Proof. exact Proofs.StatsFloat.nofnat_float_exact. Qed.
+Check c18_nofnat_float_exact : forall n : nat, (Z.of_nat n < 2 ^ 53)%Z ->
+  is_finite (Prim2B (nofnat n)) = true /\ B2R (Prim2B (nofnat n)) = INR n.
+Print Assumptions c18_nofnat_float_exact.
+
+(* the computed mean equals sum/n to within rounding:
+   ((1+eps)^(n+1) - 1) * sum|x_i| / n  +  eta,  eta = 2^-1075 (a possibly subnormal quotient) *)
+Theorem c18_arith_mean_float_error : forall l : list PrimFloat.float,
+  l <> [] -> (Z.of_nat (length l) < 2 ^ 53)%Z ->
+  (forall x, In x l -> is_finite (Prim2B x) = true) ->
+  (forall k, (k <= length l)%nat -> is_finite (Prim2B (sum_list (firstn k l))) = true) ->
+  exists m, arith_mean l = Some m /\ is_finite (Prim2B m) = true /\
+  Rabs (B2R (Prim2B m) - Rsum (map (fun x => B2R (Prim2B x)) l) / INR (length l)) <=
+    ((1 + bpow radix2 (-53)) ^ S (length l) - 1)
+      * Rsum (map (fun x => Rabs (B2R (Prim2B x))) l) / INR (length l)
+    + bpow radix2 (-1075).
+Proof. exact Proofs.StatsFloat.arith_mean_float_error. Qed.
+Check c18_arith_mean_float_error : forall l : list PrimFloat.float,
+  l <> [] -> (Z.of_nat (length l) < 2 ^ 53)%Z ->
+  (forall x, In x l -> is_finite (Prim2B x) = true) ->
+  (forall k, (k <= length l)%nat -> is_finite (Prim2B (sum_list (firstn k l))) = true) ->
+  exists m, arith_mean l = Some m /\ is_finite (Prim2B m) = true /\
+  Rabs (B2R (Prim2B m) - Rsum (map (fun x => B2R (Prim2B x)) l) / INR (length l)) <=
+    ((1 + bpow radix2 (-53)) ^ S (length l) - 1)
+      * Rsum (map (fun x => Rabs (B2R (Prim2B x))) l) / INR (length l)
+    + bpow radix2 (-1075).
+Print Assumptions c18_arith_mean_float_error.
+
+(* non-vacuity of the float hypotheses: Proofs.StatsFloat.ex_data = [0.1; 0.2; 0.3] (nearest binary64
+   values 0x1.999999999999ap-4, 0x1.999999999999ap-3, 0x1.3333333333333p-2), checked by computation *)
+Example c18_float_nonvacuous :
+  ex_data <> [] /\ (Z.of_nat (length ex_data) < 2 ^ 53)%Z /\
+  (forall x, In x ex_data -> is_finite (Prim2B x) = true) /\
+  (forall k, (k <= length ex_data)%nat -> is_finite (Prim2B (sum_list (firstn k ex_data))) = true).
+Proof.
+  split; [discriminate|]. split; [cbn; lia|].
+  split; [exact Proofs.StatsFloat.ex_data_finite | exact Proofs.StatsFloat.ex_data_prefixes].
+Qed.
